@@ -61,6 +61,12 @@ struct UnitToml {
     /// R21 (extended): `X.filter(|p| B)` on an Option -> match (off by default: `filter` is far more common on iterators)
     #[serde(default)]
     expand_option_filter: bool,
+    /// R34: `for P in E.values_mut() { B }` -> an index loop over the stand-in enumeration of E's values:
+    /// `{ let mut vx_i: usize = 0; let vx_n: usize = E.vx_len(); while vx_i < vx_n { let P = E.vx_value_mut_at(vx_i); B; vx_i += 1; } }`
+    /// (std: `values_mut()` visits every value exactly once, in an unspecified order; the stand-in fixes one enumeration). Refused
+    /// (left alone) when B contains `continue`
+    #[serde(default)]
+    expand_values_mut_loops: bool,
     /// R26: `cast!(A, M)` is expanded to `A.cast(M).map_err(|e| RactorErr::from(e))`, the body of `macro_rules! cast` in
     /// ractor/src/macros.rs (checked against the file on every run: a different definition => undecided)
     #[serde(default)]
@@ -363,6 +369,7 @@ struct Rewriter<'a> {
     expand_map_or_else: bool,
     expand_option_combinators: bool,
     expand_option_filter: bool,
+    expand_values_mut_loops: bool,
     chainmap: Vec<(syn::Expr, syn::Expr)>,
     closure_method_map: BTreeMap<String, String>,
     expand_cast_macro: bool,
@@ -952,6 +959,41 @@ impl<'a> VisitMut for Rewriter<'a> {
                 self.rules.insert("R24".into());
             }
         }
+        // R34: `for P in E.values_mut() { B }` -> index loop over the stand-in enumeration of the map's values
+        if self.expand_values_mut_loops {
+            let mut repl: Option<syn::Expr> = None;
+            if let syn::Expr::ForLoop(f) = e {
+                if let syn::Expr::MethodCall(mc) = &*f.expr {
+                    if f.label.is_none() && mc.method == "values_mut" && mc.args.is_empty() {
+                        struct HasCont(bool);
+                        impl<'ast> syn::visit::Visit<'ast> for HasCont {
+                            fn visit_expr_continue(&mut self, _c: &'ast syn::ExprContinue) { self.0 = true; }
+                            fn visit_expr_closure(&mut self, _c: &'ast syn::ExprClosure) {}
+                        }
+                        let mut hc = HasCont(false);
+                        syn::visit::Visit::visit_block(&mut hc, &f.body);
+                        if !hc.0 {
+                            let recv = (*mc.receiver).clone();
+                            let pat = (*f.pat).clone();
+                            let stmts = f.body.stmts.clone();
+                            // a body ending in a tail expression (of type `()`) gets its `;`
+                            let mut stmts2: Vec<syn::Stmt> = vec![];
+                            for st in stmts { match st { syn::Stmt::Expr(x, None) => stmts2.push(syn::Stmt::Expr(x, Some(Default::default()))), o => stmts2.push(o) } }
+                            repl = Some(syn::parse_quote!({
+                                let mut vx_i: usize = 0;
+                                let vx_n: usize = #recv.vx_len();
+                                while vx_i < vx_n {
+                                    let #pat = #recv.vx_value_mut_at(vx_i);
+                                    #(#stmts2)*
+                                    vx_i += 1;
+                                }
+                            }));
+                        }
+                    }
+                }
+            }
+            if let Some(r) = repl { *e = r; self.rules.insert("R34".into()); }
+        }
         // R7: an async block is projected to the block itself (evaluated where it stands; its output is the block's value)
         if !self.async_projection.is_empty() {
             if let syn::Expr::Async(a) = e {
@@ -1447,6 +1489,27 @@ impl VisitMut for SelfRenamer {
     }
     fn visit_item_mut(&mut self, _i: &mut syn::Item) {}
 }
+/// R33: a destructuring parameter `PAT: T` -> `vx_arg<k>: T` (k = position among the non-receiver parameters, from 0) plus
+/// `let PAT = vx_arg<k>;` as the first statement (the definition of a pattern parameter; Verus accepts only variables there)
+fn rewrite_pat_params(sig: &mut syn::Signature, block: &mut syn::Block) -> bool {
+    let mut lets: Vec<syn::Stmt> = vec![];
+    let mut k = 0usize;
+    for a in sig.inputs.iter_mut() {
+        if let syn::FnArg::Typed(pt) = a {
+            let simple = matches!(&*pt.pat, syn::Pat::Ident(pi) if pi.subpat.is_none() && pi.by_ref.is_none());
+            if !simple && !matches!(&*pt.pat, syn::Pat::Wild(_)) {
+                let id = syn::Ident::new(&format!("vx_arg{}", k), Span::call_site());
+                let pat = (*pt.pat).clone();
+                lets.push(syn::parse_quote!(let #pat = #id;));
+                pt.pat = Box::new(syn::parse_quote!(#id));
+            }
+            k += 1;
+        }
+    }
+    let hit = !lets.is_empty();
+    for (i, l) in lets.into_iter().enumerate() { block.stmts.insert(i, l); }
+    hit
+}
 fn rewrite_mut_self(sig: &mut syn::Signature, block: &mut syn::Block) -> bool {
     let mut hit = false;
     if let Some(syn::FnArg::Receiver(r)) = sig.inputs.first_mut() {
@@ -1634,13 +1697,14 @@ impl<'a> VisitMut for Annotator<'a> {
     }
 
     fn visit_block_mut(&mut self, b: &mut syn::Block) {
+        // (loop contracts located by body text: see loop_key_for)
         let pts: Vec<ProofPoint> = self.contract.map(|c| c.proof_points.clone()).unwrap_or_default();
         if pts.is_empty() { visit_mut::visit_block_mut(self, b); return; }
         let mut out: Vec<syn::Stmt> = vec![];
         for mut st in std::mem::take(&mut b.stmts) {
             let direct_loop = matches!(&st, syn::Stmt::Expr(syn::Expr::While(_) | syn::Expr::Loop(_) | syn::Expr::ForLoop(_), _));
             if direct_loop {
-                let k = self.loop_counter;
+                let k = match &st { syn::Stmt::Expr(le, _) => loop_key_for(self.contract, le, self.loop_counter).unwrap_or(usize::MAX), _ => usize::MAX };
                 for (i, p) in pts.iter().enumerate() {
                     if matches!(&p.at, ProofAt::BeforeLoop(n) if *n == k) {
                         let mid = syn::Ident::new(&format!("vx_proof_pt_{}_{}", self.fn_idx, i), Span::call_site());
@@ -1678,11 +1742,12 @@ impl<'a> VisitMut for Annotator<'a> {
     fn visit_expr_mut(&mut self, e: &mut syn::Expr) {
         let is_loop = matches!(e, syn::Expr::While(_) | syn::Expr::Loop(_) | syn::Expr::ForLoop(_));
         if is_loop {
-            let k = self.loop_counter;
+            let key = loop_key_for(self.contract, e, self.loop_counter);
             self.loop_counter += 1;
-            let has = self.contract.map(|c| c.loops.contains_key(&k)).unwrap_or(false);
+            let has = key.is_some();
+            let k = key.unwrap_or(0);
             if has {
-                self.used_loops.insert(k);
+                if !self.used_loops.insert(k) { die(format!("loop contract {} matches more than one loop (lost anchor)", k)); }
                 let id = syn::Ident::new(&format!("vx_loop_{}_{}", self.fn_idx, k), Span::call_site());
                 let attr: syn::Attribute = syn::parse_quote!(#[#id]);
                 push_attr(e, attr);
@@ -1723,6 +1788,23 @@ impl<'a> VisitMut for Annotator<'a> {
     }
 }
 
+/// which loop contract belongs to the loop expression `e` (the `ordinal`-th loop of the function): a contract with `match <text>`
+/// whose text occurs in the loop body, else the contract numbered `ordinal` if that one is not text-anchored
+fn loop_key_for(contract: Option<&FnContract>, e: &syn::Expr, ordinal: usize) -> Option<usize> {
+    let c = contract?;
+    let body = match e {
+        syn::Expr::While(w) => &w.body,
+        syn::Expr::Loop(l) => &l.body,
+        syn::Expr::ForLoop(f) => &f.body,
+        _ => return None,
+    };
+    let text: String = body.to_token_stream().to_string().split_whitespace().collect::<Vec<_>>().join("");
+    for (k, lc) in c.loops.iter() {
+        if let Some(m) = &lc.match_text { if text.contains(m.as_str()) { return Some(*k); } }
+    }
+    match c.loops.get(&ordinal) { Some(lc) if lc.match_text.is_none() => Some(ordinal), _ => None }
+}
+
 /// R28: an expression that means the same read as a specification: field reads, comparisons, boolean connectives, `Some(..)`
 fn is_pure_spec_expr(e: &syn::Expr) -> bool {
     use syn::Expr::*;
@@ -1737,6 +1819,16 @@ fn is_pure_spec_expr(e: &syn::Expr) -> bool {
         Tuple(t) => t.elems.iter().all(is_pure_spec_expr),
         // constructors: `Some(..)`, `Ok(..)`, `Err(..)`, `Type::Variant(..)`
         Call(c) => matches!(&*c.func, syn::Expr::Path(p) if p.path.segments.last().map(|x| x.ident.to_string().chars().next().map(|ch| ch.is_uppercase()).unwrap_or(false)).unwrap_or(false)) && c.args.iter().all(is_pure_spec_expr),
+        // `{ let PAT = pure; .. ; pure }` (what R18 makes of a destructuring closure parameter): a `let` of a pure expression
+        // means the same in a specification
+        Block(b) if b.label.is_none() && b.attrs.is_empty() => {
+            let n = b.block.stmts.len();
+            n >= 1 && b.block.stmts.iter().enumerate().all(|(i, st)| match st {
+                syn::Stmt::Local(l) if i + 1 < n => l.attrs.is_empty() && matches!(&l.init, Some(init) if init.diverge.is_none() && is_pure_spec_expr(&init.expr)),
+                syn::Stmt::Expr(x, None) if i + 1 == n => is_pure_spec_expr(x),
+                _ => false,
+            })
+        }
         _ => false,
     }
 }
@@ -1866,6 +1958,9 @@ fn process_fn_common(
     if let Some(b) = block {
         if !external_body && rewrite_mut_self(sig, b) {
             rules.insert("R14".into());
+        }
+        if !external_body && rewrite_pat_params(sig, b) {
+            rules.insert("R33".into());
         }
         if external_body {
             *b = syn::parse_quote!({ unimplemented!() });
@@ -2140,6 +2235,7 @@ fn main() {
             expand_map_or_else: unit_toml.expand_map_or_else,
             expand_option_combinators: unit_toml.expand_option_combinators,
             expand_option_filter: unit_toml.expand_option_filter,
+            expand_values_mut_loops: unit_toml.expand_values_mut_loops,
             closure_method_map: unit_toml.closure_method_map.clone(),
             expand_cast_macro: unit_toml.expand_cast_macro,
             select_biased,
